@@ -285,6 +285,8 @@ class Ctx:
             smt.STATS.unsat += 1
             return True
         smt.STATS.sat += 1
+        if known_id is not None and any(k[0] == known_id and k[1] == label for k in self.known):
+            return False      # one confirmed instance of a recorded finding per label and case is enough
         # the path itself must be feasible for this to be a counterexample: ask for a model of the pc
         r, model, detail = smt.decide(self.pc, self.decide_timeout_ms, cross=False)
         smt.STATS.decide -= 1
